@@ -187,3 +187,42 @@ func TestLeakKill(t *testing.T) {
 		}
 	}
 }
+
+// A goroutine that is still alive when the root returns must not get anything done afterwards,
+// not even through its deferred calls (the process has exited).
+func TestNoEffectsAfterRootReturns(t *testing.T) {
+	lateSeen := false
+	for seed := 0; seed < 300; seed++ {
+		ended, late := false, 0
+		o := Run(Config{Seed: uint64(seed), Strategy: Strategy{Kind: StratUniform}}, func() {
+			done := MakeChan[bool](0, "done")
+			Go("writer", func() {
+				defer func() {
+					Yield("late write")
+					if ended {
+						late++
+					}
+				}()
+				done.Send(true)
+				Yield("flush")
+				if ended {
+					late++
+				}
+			})
+			done.Recv()
+			ended = true
+		})
+		if o.Kind != Returned {
+			t.Fatal(o.Kind)
+		}
+		if late > 0 {
+			t.Fatalf("seed %d: %d effects after the run had ended", seed, late)
+		}
+		if o.Leaked > 0 {
+			lateSeen = true
+		}
+	}
+	if !lateSeen {
+		t.Fatal("no schedule left the goroutine alive at return: the test does not exercise the kill path")
+	}
+}
